@@ -258,12 +258,23 @@ func vfC04Run(t *testing.T, c vfC04Case) (obs vfC04Obs) {
 				// duplicates by the time the worker gets to them) and a message of the other topic is pushed meanwhile
 				for _, p := range c.During {
 					recv("M", p)
-					obs.During = append(obs.During, p)
 				}
 				duringDone = true
 				recvT("U", "u", 9)
 				close(qRelease)
 				synctest.Wait()
+				// the queued copies are handled right after M's synchronous stage: while M is parked in its asynchronous stage they
+				// are duplicates of a message under validation, otherwise duplicates of a decided one
+				mu.Lock()
+				stillParked := reason == 0 && !obs.Delivered
+				mu.Unlock()
+				for _, p := range c.During {
+					if stillParked {
+						obs.During = append(obs.During, p)
+					} else {
+						obs.After = append(obs.After, p)
+					}
+				}
 			}
 			mu.Lock()
 			parked := reason == 0 && !obs.Delivered
